@@ -1,5 +1,6 @@
 import SJ.Props.C04
 import SJ.Props.C04Ap
+import SJ.Props.C04Rv
 #print axioms SJ.Props.C04.c04_written_text
 #print axioms SJ.Props.C04.c04_reads_back
 #print axioms SJ.Props.C04.c04_value
@@ -22,3 +23,6 @@ import SJ.Props.C04Ap
 #print axioms SJ.Props.C04.c04_typed_ap_partial
 #print axioms SJ.Props.C04Ap.c04_ap_value
 #print axioms SJ.Props.C04Ap.c04_ap_token_not_identity
+#print axioms SJ.Props.C04Rv.c04_rv_reads_back
+#print axioms SJ.Props.C04Rv.c04_rv_value
+#print axioms SJ.Props.C04Rv.c04_rv_token_not_identity
